@@ -31,22 +31,27 @@ def slices(tier):
     vector = dict(mode="gateaux", seeds={"u": ("du", None), "gu": ("gdu", None)}, opts={"du": {"kind": "arg0"}, "gu": {"grad_of": "u"}, "gdu": {"grad_of": "du"}}, gateaux=[("u", "du")])
     comp = dict(mode="gateaux", seeds={"u": (("comp", (1,), "dv"), None)}, opts={"dv": {"kind": "arg0"}}, gateaux=[(("comp", (1,), "u"), "dv")])
     userd = dict(mode="gateaux", seeds={"w": ("dv", None), "f": (("prod", "g", "dv"), None)}, opts={"dv": {"kind": "arg0"}}, gateaux=[("w", "dv", {"f": "g"})])
+    # f depends on w through a user-supplied derivative df/dw = g; then grad(f) is perturbed by grad(g dv)
+    userdg = dict(mode="gateaux", seeds={"w": ("dv", None), "f": (("prod", "g", "dv"), None), "gf": (("dprod", "g", "gdv", "dv", "gg"), None)},
+                  opts={"dv": {"kind": "arg0"}, "gf": {"grad_of": "f"}, "gg": {"grad_of": "g"}, "gdv": {"grad_of": "dv"}}, gateaux=[("w", "dv", {"f": "g"})])
     A1 = {"mul", "add", "div", "pow", "abs", "sqrt", "neg", "max", "sign"}
     A2 = {"mul", "add", "sub", "div", "pow", "cond", "lt", "max", "min"}
     G1 = {"gateaux1"}
     out = [
         # [expression over w and grad w, derivative, expand]
         Slice("s1", [W, DV, DV2, F, GW, GDV], A1, 3, lits=[LIT["two"], LIT["half"]], idx=(10,), jets=scalar, levels=[A1 | A2 | {"index", "dot", "inner"}, G1, FIN], mikinds=("name", "fixed"), **kw),
-        Slice("s2", [W, DV, F, GW, GDV], A1, 4, lits=[LIT["two"]], idx=(10,), jets=scalar, levels=[{"mul", "div", "pow", "abs", "sqrt", "dot", "index", "lt"}, {"mul", "add", "div", "pow", "cond", "max"}, G1, FIN], mikinds=("fixed",), **kw),
         Slice("s-second", [W, DV, DV2, F], A1, 4, lits=[LIT["two"]], jets=scalar, levels=[{"mul", "pow", "div", "add", "sqrt"}, G1, {"gateaux2"}, FIN], **kw),
-        Slice("s-second2", [W, DV, DV2, F], A1, 5, jets=scalar, levels=[{"mul", "div"}, {"mul", "add", "pow"}, G1, {"gateaux2"}, FIN], **kw),
         Slice("v1", [U, DU, F, GU, GDU], E1, 3, idx=(10,), lits=[LIT["two"]], jets=vector, levels=[{"index", "dot", "inner", "outer", "mul", "list", "neg", "tr", "transpose", "pow"}, G1, FIN], mikinds=("name", "fixed"), **kw),
-        Slice("v2", [U, DU, F, GU], E1, 4, idx=(10,), jets=vector, levels=[{"index", "dot", "inner", "tr"}, {"mul", "add", "div", "pow", "abs"}, G1, FIN], mikinds=("fixed",), **kw),
+        Slice("v2", [U, DU, F, GU, GDU], E1, 4, idx=(10,), jets=vector, levels=[{"index", "dot", "inner", "tr"}, {"mul", "add", "div", "pow", "abs"}, G1, FIN], mikinds=("fixed",), **kw),
         Slice("comp", [U, DV, F], E1, 4, idx=(10,), jets=comp, levels=[{"index", "dot", "mul", "inner"}, {"mul", "add", "pow", "div", "index"}, G1, FIN], mikinds=("name", "fixed"), **kw),
-        Slice("userd", [W, DV, F, G], A1, 4, jets=userd, levels=[{"mul", "add", "pow", "div"}, {"mul", "add", "div"}, G1, FIN], **kw),
+        Slice("userd-grad", [W, DV, F, G, ("gf", (2,)), ("gg", (2,)), GDV], A1, 4, idx=(10,), jets=userdg, levels=[{"index", "dot", "mul"}, {"mul", "add"}, G1, FIN], mikinds=("fixed",), **kw),
+        Slice("userd", [W, DV, F, G], A1, 3, lits=[LIT["two"]], jets=userd, levels=[{"mul", "add", "pow", "div", "abs"}, G1, FIN], **kw),
     ]
     if not q:
         out += [
+            Slice("s2", [W, DV, F, GW, GDV], A1, 4, lits=[LIT["two"]], idx=(10,), jets=scalar, levels=[{"mul", "div", "pow", "abs", "sqrt", "dot", "index", "lt"}, {"mul", "add", "div", "pow", "cond", "max"}, G1, FIN], mikinds=("fixed",), **kw),
+            Slice("s-second2", [W, DV, DV2, F], A1, 5, jets=scalar, levels=[{"mul", "div"}, {"mul", "add", "pow"}, G1, {"gateaux2"}, FIN], **kw),
+            Slice("userd2", [W, DV, F, G], A1, 4, jets=userd, levels=[{"mul", "add", "pow", "div"}, {"mul", "add", "div"}, G1, FIN], **kw),
             Slice("s3", [W, DV, DV2, F, GW, GDV], A1, 5, lits=[LIT["two"]], idx=(10,), jets=scalar, levels=[A1 | {"index", "dot"}, A2 | {"dot", "inner", "index"}, A2, G1, FIN], mikinds=("name", "fixed"), **kw),
             Slice("v3", [U, DU, F, GU, GDU], E1, 5, idx=(10,), jets=vector, levels=[{"index", "dot", "inner", "outer", "mul", "list", "tr", "as_tensor"}, {"mul", "add", "index", "dot", "inner"}, {"mul", "add", "div", "pow", "abs", "cond", "lt"}, G1, FIN], mikinds=("name", "fixed"), **kw),
         ]
